@@ -11,6 +11,18 @@ CLAIMED = {
                 text='Every path of the real pipeline (lexer, generated parser, evaluator, print, diagnostics) through the arithmetic templates is decided by z3 for ALL pairs of 64-bit operands '
                      '(operands are solver variables, not samples): result exact or the documented error naming op and operands; op-assign forms on variable / element / property targets; comparisons; ranges up to a stated length.',
                 design='§4 C06'),
+    'C07': dict(technique='bounded symbolic execution of the MIR of main: free boolean conditions and jump-placement selectors, decided by z3; lock-step reference semantics; native replay of every witness',
+                text='All nestings (to the stated depth) of bare block / if / else-if / while / for over list, string, object / call, with break, continue, return or nothing placed by a symbolic selector and every condition a free boolean, are explored path-wise; on each path z3 decides that stdout, exit status and the error class equal the reference semantics for ALL assignments in the path condition.',
+                design='§4 C07'),
+    'C10': dict(technique='bounded symbolic execution of the MIR of main: operand pairs chosen by symbolic selectors over a pool of heap graphs with symbolic leaves, decided by z3; lock-step reference; native replay',
+                text='All ordered pairs from a pool of small heap graphs (shared children, container inside its comparand, insertion-order variants, mismatching leaves) with symbolic int/bool leaves: ==, !=, ===, !== in both orders equal the reference structural equivalence / identity, type mismatches are reported naming both types, nothing panics, and all pool values print unchanged afterwards.',
+                design='§4 C10'),
+    'C11': dict(technique='bounded symbolic execution of the MIR of main: unconstrained i64 indices/bounds and symbolic elements over concrete lengths, decided by z3; lock-step reference; native replay',
+                text='For every sequence length up to the bound, index and both range bounds are unconstrained 64-bit solver variables (omitted bounds included): reads, slices, concatenation, element and range assignment are decided against the sequence laws of the statement on every path, including the error domain.',
+                design='§4 C11'),
+    'C16': dict(technique='bounded symbolic execution of the MIR of main: operand kinds chosen by symbolic selectors (8x8 matrix per operator in one run), leaves symbolic, decided by z3; lock-step reference acceptance table; native replay',
+                text='Exhaustive over kinds: 15 binary operators x 8 x 8 operand kinds in plain form, 5 in op-assign form on variable and element targets, and 27 typed contexts x 8 kinds; accepted exactly per the documented table, otherwise exit 103 with a diagnostic naming operator and both type names in order; int and bool leaves are solver variables.',
+                design='§4 C16'),
 }
 NA_REASON = 'check not built yet in this round (DESIGN.md §7 gates); no claim is made'
 checks = []
